@@ -117,7 +117,11 @@ class BlockWriteHandler(AbstractWriteHandler):
                     raise NestedBlockDisallowedError("A block was not expected to contain any sub-blocks.")
                 # (last_handler_in_block must be SimpleOperationWriteHandler in this case)
                 assert isinstance(self.last_handler_in_block, SimpleOperationWriteHandler)
-                if self.last_handler_in_block.get_real_handler().__name__ == "CtxSimpleOpWriteHandler":
+                if self.last_handler_in_block.get_real_handler().__name__ in (
+                    "CtxSimpleOpWriteHandler",
+                    "MesageSwitchSimpleOpWriteHandler",
+                ):
+                    # Context blocks and message switches are blocks too.
                     raise NestedBlockDisallowedError("A block was not expected to contain any sub-blocks.")
 
             previous_vertex = self._next_vertex
